@@ -39,7 +39,17 @@ func poolScenario(cfg scenlib.PoolCfg, subs [][]jobSpec, closeAtEnd bool, bound 
 
 // prealloc > 0: the driver calls PreAllocWorkerSize(prealloc) concurrently with the submitters.
 func poolScenarioP(cfg scenlib.PoolCfg, subs [][]jobSpec, closeAtEnd bool, prealloc int, bound int, delay bool) *vsched.Scenario {
+	return poolScenarioH(cfg, subs, closeAtEnd, prealloc, bound, delay, false)
+}
+
+// reentrantHandler: the panic handler calls back into the pool - it schedules a follow-up job (id 900), as a
+// handler that re-queues or reports through the same pool does, and waits until that job has started (the
+// pool has a second worker for it): the job is accepted and runs like any other, the handler returns.
+func poolScenarioH(cfg scenlib.PoolCfg, subs [][]jobSpec, closeAtEnd bool, prealloc int, bound int, delay bool, reentrantHandler bool) *vsched.Scenario {
 	fam := "pool"
+	if reentrantHandler {
+		fam = "pool-reentrant-handler"
+	}
 	if closeAtEnd {
 		fam = "pool-closed-at-end"
 	}
@@ -75,7 +85,21 @@ func poolScenarioP(cfg scenlib.PoolCfg, subs [][]jobSpec, closeAtEnd bool, preal
 			if replacesHandler {
 				handler = func(v interface{}) { vsched.Event("panic-handler-replaced-one", fmt.Sprint(v)) }
 			}
-			p := scenlib.NewPool(cfg, handler)
+			var p *worker.DefaultWorkerPool
+			if reentrantHandler {
+				started := make(chan struct{})
+				handler = func(v interface{}) {
+					vsched.Event("panic-handler", fmt.Sprint(v))
+					follow := scenlib.Job(900, "plain", g)
+					err := p.Schedule(func() { close(started); follow() })
+					vsched.Event("sched", 900, scenlib.SchedErr(err))
+					if err == nil {
+						<-started
+					}
+					vsched.Event("handler-returned")
+				}
+			}
+			p = scenlib.NewPool(cfg, handler)
 			next := 0
 			done := make(chan int, len(subs))
 			for si, script := range subs {
@@ -163,6 +187,22 @@ func poolScenarioP(cfg scenlib.PoolCfg, subs [][]jobSpec, closeAtEnd bool, preal
 					}
 				}
 			}
+			if reentrantHandler {
+				acc, runs := e1.Count(r, "sched", 900, "accepted"), e1.Count(r, "start", 900)
+				returned := 0
+				for _, e := range r.Events {
+					if e.Kind == "sched" && e.Args[0].(int) == 900 {
+						returned++
+					}
+				}
+				if e1.Count(r, "panic-handler") > 0 && returned == 0 {
+					fs = append(fs, e1.Fail("C09|"+fam+"|handler-stuck", "the panic handler's call to Schedule on its own pool has not returned when nothing can happen any more"))
+				} else if e1.Count(r, "panic-handler") != e1.Count(r, "handler-returned") {
+					fs = append(fs, e1.Fail("C09|"+fam+"|handler-stuck", "the panic handler, waiting for the follow-up job it scheduled on its own pool (which has a second worker), never saw it start"))
+				} else if runs != acc {
+					fs = append(fs, e1.Fail("C09|"+fam+"|accepted-never-ran|after-job-panic", "the follow-up job scheduled by the panic handler was accepted %d time(s) and ran %d time(s)", acc, runs))
+				}
+			}
 			for _, e := range r.Events {
 				if e.Kind == "panic-handler" && !strings.HasPrefix(e.Args[0].(string), "boom-") && e.Args[0].(string) != "<nil>" {
 					fs = append(fs, e1.Fail("C09|"+fam+"|panic-handler-foreign", "panic handler invoked for something that is not a job's panic: %v", e.Args[0]))
@@ -237,6 +277,9 @@ func scenarios(tier string) []*vsched.Scenario {
 			poolScenario(scenlib.PoolCfg{Cap: 1, Buf: 1, Max: 1, StandBy: 1, Batch: 1}, [][]jobSpec{{js("timed", S), js("", "sethandler"), js("panic", "late"), js("plain", S)}}, false, 1, false),
 			poolScenario(scenlib.PoolCfg{Cap: 1, Buf: 1, Max: 1, StandBy: 1, Batch: 1, KeepQueue: true}, scripts[1], true, 1, false),
 			poolScenario(scenlib.PoolCfg{Cap: 1, Buf: 2, Max: 2, StandBy: 0, Batch: 1, KeepQueue: true}, scripts[6], true, 2, true))
+		// a panic handler that schedules a follow-up job on its own pool
+		out = append(out,
+			poolScenarioH(scenlib.PoolCfg{Cap: 2, Buf: 1, Max: 2, StandBy: 2, Batch: 1}, [][]jobSpec{{js("panic", S)}}, false, 0, 0, false, true)) // (bound 0: with two stand-by workers and their timers one deviation already takes minutes)
 		// configured through a settings struct / SetDefaultWorkerPoolSettings + SetJobQueue instead of the individual setters
 		out = append(out,
 			poolScenario(scenlib.PoolCfg{Cap: 1, Buf: 1, Max: 1, StandBy: 1, Batch: 1, Via: "settings"}, scripts[2], false, 1, false),
